@@ -367,23 +367,6 @@ def nontrivial(io):
     return nr >= 1 and nc >= 1 and nr * nc >= 2
 
 
-def dominate(case, rng):
-    res = case["response"]["result"]
-    counts = res["counts"]
-    data = res.get("measures", {}).get("count", {}).get("data")
-    idxs = [i for i, c in enumerate(counts) if isinstance(c, (int, float)) and c > 0
-            and (data is None or (isinstance(data[i], (int, float)) and data[i] > 0))]
-    if not idxs:
-        return
-    i = rng.choice(idxs)
-    big = 2 ** rng.randint(20, 24)
-    counts[i] = counts[i] + big
-    if data is not None:
-        data[i] = data[i] + big
-    res["n"] = res.get("n", 0) + big
-    case["dominant"] = True
-
-
 def evaluate(cases, rep, tag="cases"):
     ios, terms, kept = [], [], []
     for case in cases:
@@ -435,10 +418,7 @@ def run(tier, seed):
     # gets 2^20..2^24 further (weighted and unweighted) respondents, so some proportion is 1 - O(1e-6)
     # and every other proportion of its row / column / table is O(1e-6) - both far outside the 1e-9
     # comparison tolerance yet inside numpy's default `isclose` window.
-    drng = random.Random(seed * 7919 + 13)
-    for case in cases:
-        if drng.random() < 0.125 and not case.get("valid_counts"):
-            dominate(case, drng)
+    cc.dominate_some(cases, seed)
     coq_s, nterms = evaluate(cases, rep)
     rep.cov["rule"] = (
         "random.Random(seed): surveys (0-40 respondents, dyadic weights incl. 0, missing categories anywhere, "
